@@ -23,7 +23,7 @@ ASSUMPTIONS = ["oracle: vf/oracle/mesh.py + classical.py, independent of permuta
 REQUIRED = [
     "calls.MeshPatt.occurrences_in", "calls.BivincularPatt.occurrences_in", "calls.Perm.contains", "calls.Perm.avoids",
     "calls.Perm.avoids_set", "calls.Perm.__contains__", "calls.BivincularPatt.__init__", "biv.adjacency_checked",
-    "mixed.checked", "nontrivial.accept_and_reject", "boundary_cell_decisive", "roundtrip.requirements", "derived.objects",
+    "mixed.checked", "nontrivial.accept_and_reject", "boundary_cell_decisive", "roundtrip.requirements", "derived.objects", "aliasing.requirements_mutated", "random_classmethod.patterns",
 ]
 MIN_NONTRIVIAL = 500
 CTX = None
@@ -216,6 +216,25 @@ def chk_biv(ctx, p, ai, av, cls):
     B2 = BivincularPatt(P, gi, gv)
     if not (B2 == B and B == B2 and frozenset(B2.shading) == frozenset(B.shading)):
         report("biv", [p, ai, av, cls], f"requirements {gi, gv} do not rebuild the pattern")
+    # aliasing: a caller that edits the returned requirement lists must not change what the pattern matches
+    gi2, gv2 = B.get_adjacent_requirements()
+    gi2.clear(), gv2.clear()
+    gi2.append(0), gv2.append(len(P))
+    CTX.count("aliasing.requirements_mutated")
+    for T in (Perm(t) for t in itertools.islice(itertools.permutations(range(min(4, len(P) + 2))), 6)):
+        _pair(B, T, full=False)
+    # the same requirements handed over as one-shot iterables (generators, iter, map): same pattern, same searches
+    if cls == "BivincularPatt":
+        B3 = BivincularPatt(P, iter(list(ai)), (v for v in av))
+    elif cls == "VincularPatt":
+        B3 = VincularPatt(P, map(int, list(ai)))
+    else:
+        B3 = CovincularPatt(P, iter(list(av)))
+    ctx.ev()
+    if not (B3 == B and hash(B3) == hash(B)):
+        report("biv", [p, ai, av, cls], "a pattern built from one-shot iterables differs from the one built from lists")
+    for T in (Perm(t) for t in itertools.islice(itertools.permutations(range(min(4, len(P) + 1))), 8)):
+        _pair(B3, T, full=False)
     E = eval(repr(B), {"BivincularPatt": BivincularPatt, "VincularPatt": VincularPatt, "CovincularPatt": CovincularPatt, "Perm": Perm})
     if not (E == B and type(E) is type(B)):
         report("biv", [p, ai, av, cls], f"eval(repr) gives {E!r} for {B!r}")
@@ -320,6 +339,14 @@ def run(ctx, spec):
             for T in rng.sample(texts, 40):
                 _pair(B, T, full=False)
     else:
+        import random as _random
+        for _ in range(spec["count"] // 10):
+            _random.seed(rng.randrange(10 ** 9))
+            R = rng.choice([BivincularPatt, VincularPatt, CovincularPatt, MeshPatt]).random(rng.randint(1, 3))
+            ctx.count("random_classmethod.patterns")
+            for _ in range(4):
+                n = rng.randint(len(R), 6)
+                _pair(R, Perm(rng.sample(range(n), n)), full=False)
         for _ in range(spec["count"]):
             k = rng.choice([1, 2, 3, 3, 4, 4])
             n = rng.randint(k, spec["nmax"])
